@@ -45,6 +45,50 @@ func runC20(r *Run) {
 	c20Placement(r, ca)
 	c20Histories(r, ca)
 	c20Cycles(r, ca)
+	c20Exclusive(r, ca)
+}
+
+// c20Exclusive: a work_dir belongs to one live validator. A second Provision on it is refused, and neither the refusal
+// nor the Cleanup Caddy runs on the refused module releases the directory: a third Provision is refused as well, the holder
+// keeps working, and only its own Cleanup frees the directory.
+func c20Exclusive(r *Run, ca *CA) {
+	for _, storage := range []string{"memory", "disk"} {
+		wd := scratchDir("c20x")
+		cfg := VCfg{Mode: "crl_only", WorkDir: wd, Storage: storage, UpdateInterval: "10h"}
+		a, err := Provision(cfg)
+		if err != nil {
+			r.Violate("C20 provision-failed", "exclusive "+storage+": "+err.Error(), nil)
+			continue
+		}
+		reg := func() int { return crl.VerifWorkDirsInUse()[wd] }
+		obs := []string{fmt.Sprint(reg())}
+		for k := 0; k < 3; k++ {
+			b, errB := Provision(cfg) // (Provision of the harness runs Cleanup on a module whose Provision failed, as Caddy does)
+			if errB == nil {
+				r.Violate("C20 work-dir-shared-by-two-validators", fmt.Sprintf("%s: attempt %d: a second validator was provisioned on a work_dir whose holder is live", storage, k+1), nil)
+				b.Close()
+			}
+			obs = append(obs, fmt.Sprintf("%v:%d", errB != nil, reg()))
+			if reg() != 1 {
+				r.Violate("C20 work-dir-released-by-refused-provision", fmt.Sprintf("%s: after refused attempt %d the registry holds %d for the live holder's work_dir", storage, k+1, reg()), nil)
+			}
+		}
+		leaf := ca.IssueLeaf(LeafOpts{})
+		vd, _ := a.Verify([][]*x509.Certificate{{leaf.Cert, ca.Cert}})
+		a.Close()
+		obs = append(obs, vd, fmt.Sprint(reg()))
+		c, errC := Provision(cfg)
+		if errC != nil {
+			r.Violate("C20 work-dir-not-released-by-cleanup", storage+": "+errC.Error(), nil)
+		} else {
+			c.Close()
+		}
+		r.Eval("exclusive/"+storage, true)
+		r.Count("exclusive:" + strings.Join(obs, ","))
+		if d := reg(); d != 0 {
+			r.Violate("C20 work-dir-still-registered", fmt.Sprintf("exclusive %s: %d", storage, d), nil)
+		}
+	}
 }
 
 // ---- A: names -----------------------------------------------------------------------------------
